@@ -38,6 +38,9 @@ CHECKS["C10"] = dict(design="4/C10", technique="TLA+ request pipeline (GqlReques
 CHECKS["C07"] = dict(design="4/C07", technique="TLA+ reference coercion function (GqlCoerce) evaluated by TLC over all types x values x routes; replay through real queries with a recording resolver and coerce_value",
     text="spec/GqlCoerce.tla transcribes input coercion (variables, literals, argument defaults, input object defaults and python names, enum internal values, list wrapping, 32-bit range) as Coerce(type, value) plus the Laws invariant (no null in non-null positions, in-range integers, wrapped singletons); TLC enumerates every argument type of bounded wrapper depth over Int / String / enum / recursive input object, every value of the family (boundary integers, unknown keys, wrong kinds) and every route (literal, variable, variable default, omitted, variable inside an object literal, null variable into a non-null argument). Each case runs as a real query against a recording resolver: the received kwargs must equal the reference or the request must be rejected before any resolver runs.",
     note="Scalar-to-scalar leniency (e.g. a string for Int) is reported but not judged. Floats are not modelled.")
+CHECKS["C04"] = dict(design="4/C04", technique="TLA+ denotational execution semantics (GqlExec: CollectFields / ExecuteSelectionSet / CompleteValue) over documents built by actions; TLC evaluates the reference for every document x world; replay on both executors with fresh and long-lived schema objects",
+    text="spec/GqlExec.tla builds only valid, conflict-free documents by actions over a schema with objects, an interface, a union, an enum with internal values, a custom scalar, list and non-null wrappers and a fragment library, and defines the response (ordered keys, aliases, merged sub-selections per runtime type, type conditions, @skip/@include with a variable, visited-fragment tracking, null + one error at resolver-error / non-null positions); TLC checks Shape and ErrorsAtNulls on the model and prints the reference for every behaviour. Each is replayed on graphql_blocking and process_graphql_query, on a fresh schema object and on one long-lived schema object serving the shuffled batch; ordered data and error paths must equal the reference and a sample of responses passes the GqlResponse judge.",
+    note="Worlds are a pairwise-covering family of 8; quick: builds <= 2 steps exhaustive + TLC simulation up to 5 steps; thorough: <= 3 exhaustive + simulation up to 7.")
 NOT_YET = {
 }
 
